@@ -1,5 +1,5 @@
 (* C13 -- proofs about Model/C13_compact.v *)
-From Coq Require Import Arith List Bool Lia.
+From Coq Require Import Arith List Bool Lia Permutation.
 From Typhon Require Import Model.C13_compact.
 Import ListNotations.
 
@@ -536,4 +536,156 @@ Lemma collapse_stat_l {A R} (stat : list A -> R) (d : A) refrow otherrow (vals :
 Proof.
   intros Hl Hok Hc. destruct (collapse_exact_l d refrow otherrow vals n c Hl Hok Hc) as [E _].
   rewrite E, somes_pad. reflexivity.
+Qed.
+
+(* ------------------------------------------------------------------ consistency of the compaction (one law for the first sentence) *)
+Lemma compact_length raw : length (snd (compact raw)) = length raw.
+Proof. unfold compact. cbn [snd]. apply map_length. Qed.
+
+Lemma compact_is_consistent_l raw : consistent raw (fst (compact raw)) (snd (compact raw)).
+Proof.
+  destruct (compact_stored_once raw) as [Hnd Hin].
+  split; [exact Hnd|]. split; [exact Hin|]. split; [apply compact_length|].
+  split; [apply compact_row_ok|apply compact_roundtrip_l].
+Qed.
+
+Lemma map_nth_eq_combine (stored idx raw : list nat) :
+  length idx = length raw ->
+  forallb (fun ab => fst ab =? snd ab) (combine (gather 0 idx stored) raw) = true ->
+  map (fun i => nth i stored 0) idx = raw.
+Proof.
+  unfold gather. revert raw. induction idx as [|i t IH]; intros [|r rt] Hl Hb; cbn in *; try discriminate; [reflexivity|].
+  apply andb_prop in Hb. destruct Hb as [E Hb]. apply Nat.eqb_eq in E. rewrite E. f_equal. apply IH; [lia|exact Hb].
+Qed.
+
+Lemma combine_eqb_refl (l : list nat) : forallb (fun ab => fst ab =? snd ab) (combine l l) = true.
+Proof. induction l as [|x t IH]; [reflexivity|]. cbn. rewrite Nat.eqb_refl. exact IH. Qed.
+
+Lemma consistent_sets stored idx raw :
+  row_ok (length stored) idx -> map (fun i => nth i stored 0) idx = raw ->
+  forall v, In v stored <-> In v raw.
+Proof.
+  intros [Hv Hs] E v. split.
+  - intros Hin. destruct (In_nth _ _ 0 Hin) as (i & Hi & Ei). subst raw v.
+    apply in_map_iff. exists i. split; [reflexivity|apply Hs; exact Hi].
+  - intros Hin. subst raw. apply in_map_iff in Hin. destruct Hin as (i & Ei & Hi). subst v.
+    apply nth_In. rewrite Forall_forall in Hv. apply Hv. exact Hi.
+Qed.
+
+Lemma consistentb_iff raw stored idx : consistentb raw stored idx = true <-> consistent raw stored idx.
+Proof.
+  unfold consistentb, consistent. split.
+  - intros H. apply andb_prop in H. destruct H as [H H4]. apply andb_prop in H. destruct H as [H H3].
+    apply andb_prop in H. destruct H as [H1 H2].
+    apply row_okb_iff in H1. apply Nat.eqb_eq in H2. apply Nat.eqb_eq in H4.
+    pose proof (map_nth_eq_combine stored idx raw H2 H3) as E.
+    pose proof (consistent_sets stored idx raw H1 E) as Hset.
+    assert (Hnd : NoDup stored).
+    { apply (NoDup_incl_NoDup (l := uniq raw)); [apply uniq_NoDup|lia|].
+      intros v Hv. apply Hset. apply uniq_In. exact Hv. }
+    repeat split; try assumption; try (apply Hset); try (apply H1).
+  - intros (Hnd & Hset & Hl & Hok & E).
+    apply andb_true_intro. split; [apply andb_true_intro; split; [apply andb_true_intro; split|]|].
+    + apply row_okb_iff. exact Hok.
+    + apply Nat.eqb_eq. exact Hl.
+    + unfold gather. rewrite E. apply combine_eqb_refl.
+    + apply Nat.eqb_eq. apply Nat.le_antisymm.
+      * apply NoDup_incl_length; [exact Hnd|]. intros v Hv. apply uniq_In. apply Hset. exact Hv.
+      * apply NoDup_incl_length; [apply uniq_NoDup|]. intros v Hv. apply Hset. apply uniq_In. exact Hv.
+Qed.
+
+(* the pairs are determined by the order of the stored points *)
+Lemma NoDup_nth_inj (l : list nat) i j : NoDup l -> i < length l -> j < length l -> nth i l 0 = nth j l 0 -> i = j.
+Proof. intros Hnd Hi Hj E. exact (proj1 (NoDup_nth l 0) Hnd i j Hi Hj E). Qed.
+
+Lemma consistent_unique raw stored idx idx' : consistent raw stored idx -> consistent raw stored idx' -> idx = idx'.
+Proof.
+  intros (Hnd & _ & Hl & [Hv _] & E) (_ & _ & Hl' & [Hv' _] & E').
+  rewrite <- E' in E. clear E' Hl Hl'. revert idx' Hv' E.
+  induction idx as [|i t IH]; intros [|i' t'] Hv' E; cbn in E; try discriminate; [reflexivity|].
+  inversion E as [[E1 E2]]. inversion Hv as [|? ? Hi Ht]. inversion Hv' as [|? ? Hi' Ht']. subst.
+  f_equal; [apply (NoDup_nth_inj stored); assumption|apply IH; assumption].
+Qed.
+
+(* two pairs name the same stored point exactly when they name the same original point *)
+Lemma consistent_same_point raw stored idx j k :
+  consistent raw stored idx -> j < length raw -> k < length raw ->
+  (nth j idx 0 = nth k idx 0 <-> nth j raw 0 = nth k raw 0).
+Proof.
+  intros (Hnd & _ & Hl & [Hv _] & E) Hj Hk. rewrite <- E.
+  rewrite <- Hl in Hj, Hk.
+  assert (N : forall q, q < length idx -> nth q (map (fun i => nth i stored 0) idx) 0 = nth (nth q idx 0) stored 0).
+  { intros q Hq. rewrite (nth_indep _ 0 ((fun i => nth i stored 0) 0)) by (rewrite map_length; exact Hq).
+    apply (map_nth (fun i => nth i stored 0)). }
+  rewrite (N j Hj), (N k Hk). rewrite Forall_forall in Hv. split.
+  - intros Eq. rewrite Eq. reflexivity.
+  - intros Eq. apply (NoDup_nth_inj stored); try assumption; apply Hv; apply nth_In; assumption.
+Qed.
+
+Lemma consistent_perm raw stored idx : consistent raw stored idx -> Permutation stored (uniq raw) /\ length stored = length (uniq raw).
+Proof.
+  intros (Hnd & Hset & _).
+  assert (P : Permutation stored (uniq raw)).
+  { apply NoDup_Permutation; [exact Hnd|apply uniq_NoDup|]. intros v. rewrite uniq_In. apply Hset. }
+  split; [exact P|apply Permutation_length; exact P].
+Qed.
+
+(* the certified checker the harness applies to what Collocator.collocate returned *)
+Lemma check_compaction_sound rawp raws idp ids newp news :
+  check_compaction rawp raws idp ids newp news = (true, true, true) ->
+  consistent (ns rawp) (ns idp) (ns newp) /\ consistent (ns raws) (ns ids) (ns news) /\ length newp = length news.
+Proof.
+  unfold check_compaction. cbv zeta. intros H. injection H as H1 H2 H3.
+  unfold compact_okb in H1. cbn [prow srow pvals svals] in H1.
+  apply andb_prop in H1. destruct H1 as [H1 Hs]. apply andb_prop in H1. destruct H1 as [Hl Hp].
+  apply andb_prop in H2. destruct H2 as [H2 Hls]. apply andb_prop in H2. destruct H2 as [H2 Hlp].
+  apply andb_prop in H2. destruct H2 as [Hcp Hcs].
+  apply andb_prop in H3. destruct H3 as [Hop Hos].
+  apply Nat.eqb_eq in Hl, Hlp, Hls, Hop, Hos. unfold ns in Hl. rewrite !map_length in Hl.
+  assert (Ln : forall l, length (ns l) = length l) by (intros l; unfold ns; apply map_length).
+  split; [|split; [|exact Hl]].
+  - apply consistentb_iff. unfold consistentb. rewrite Hp, Hcp, !Ln, Hlp, Hop, !Nat.eqb_refl. reflexivity.
+  - apply consistentb_iff. unfold consistentb. rewrite Hs, Hcs, !Ln, Hls, Hos, !Nat.eqb_refl. reflexivity.
+Qed.
+
+(* the dataset that _create_return builds from the raw pairs and the original data *)
+Lemma gather_gather {A} (d : A) idx u data :
+  Forall (fun i => i < length u) idx ->
+  gather d idx (gather d u data) = gather d (map (fun i => nth i u 0) idx) data.
+Proof.
+  intros Hv. unfold gather. rewrite map_map. apply map_ext_in. intros i Hi.
+  rewrite Forall_forall in Hv. specialize (Hv i Hi).
+  rewrite (nth_indep _ d ((fun v => nth v data d) 0)) by (rewrite map_length; exact Hv).
+  apply (map_nth (fun v => nth v data d)).
+Qed.
+
+Lemma create_return_l {A B} (da : A) (db : B) rawp raws (pdata : list A) (sdata : list B) :
+  length rawp = length raws ->
+  compact_ok (create_return da db rawp raws pdata sdata) /\
+  expand da db (create_return da db rawp raws pdata sdata) = combine (gather da rawp pdata) (gather db raws sdata).
+Proof.
+  intros Hl. unfold create_return. cbv zeta. split.
+  - unfold compact_ok. cbn [prow srow pvals svals]. unfold gather at 1 2. rewrite !map_length, !compact_length.
+    split; [exact Hl|]. split; apply compact_row_ok.
+  - unfold expand. cbn [prow srow pvals svals].
+    rewrite !gather_gather by apply compact_valid_l. rewrite !compact_roundtrip_l. reflexivity.
+Qed.
+
+(* a worked instance: sparse matches of a long track, met in non-ascending order *)
+Lemma nonvacuous_consistent_l :
+  (* a long track of which the points 480, 450, 470, 300 are met in this order (450 twice) *)
+  let raw := [480; 450; 470; 450; 300] in
+  compact raw = ([480; 450; 470; 300], [0; 1; 2; 1; 3]) /\
+  consistent raw [480; 450; 470; 300] [0; 1; 2; 1; 3] /\
+  (* another order of the stored points with the pairs that belong to it is consistent as well ... *)
+  consistent raw [300; 450; 470; 480] [3; 1; 2; 1; 0] /\
+  (* ... the positions in the SORTED points applied to the stored points in order of first appearance are not *)
+  ~ consistent raw [480; 450; 470; 300] [3; 1; 2; 1; 0] /\
+  consistentb raw [480; 450; 470; 300] [4; 4; 4; 4; 0] = false.
+Proof.
+  cbv zeta. split; [vm_compute; reflexivity|].
+  split; [apply consistentb_iff; vm_compute; reflexivity|].
+  split; [apply consistentb_iff; vm_compute; reflexivity|].
+  split; [|vm_compute; reflexivity].
+  intros H. apply consistentb_iff in H. vm_compute in H. discriminate.
 Qed.
